@@ -52,6 +52,10 @@ def run(chk: Check) -> None:
         if rule == "R03.1" and "class-level" in construct or rule == "R03.1" and "module-level" in construct:
             chk.ob("R17.7", construct, ok, loc, msg, facts)
     chk.floor("R17.4", "back-pointer writes", k, 14)
+    for prop, rule, construct, ok, loc, msg, facts in own.obs:
+        if rule == "R03.6":
+            chk.ob("R17.3", construct, ok, loc,
+                   msg + " (duplicate-UUID detection in Node._from_protobuf relies on it)", facts)
     _decoders_use_primitives(chk)
     _validation(chk)
     _no_swallow(chk)
